@@ -207,7 +207,9 @@ pub fn check_doc(c: &DocCase, obs: &mut Obs) -> Result<(), String> {
     let lines = m::non_blank_lines(&doc);
     // domain: every non-blank line holds a byte that is white space under no reading
     for l in &lines {
-        if l.iter().all(|b| m::is_ascii_ws(*b) || m::is_ambiguous_ws(*b)) {
+        // (inputs that did not come through the generator - libFuzzer, replay - are held to
+        // the same domain: a line the generator's sanitiser would have changed is outside it)
+        if l.iter().all(|b| m::is_ascii_ws(*b) || m::is_ambiguous_ws(*b)) || sanitise(l.to_vec()) != *l {
             obs.excluded = true;
             return Ok(());
         }
@@ -292,10 +294,11 @@ pub fn property() -> Property {
             doc_strategy,
             |t| t.pick(30_000, 1_500_000),
             check_doc,
-        )],
+        ), crate::fuzz::replay_stream(),
+        ],
         selfcheck: m::selfcheck,
         hang_is_violation: false,
         min_nontrivial_share: 0.05,
-        extra: None,
+        extra: Some(crate::fuzz::extra),
     }
 }
